@@ -47,6 +47,11 @@ def gen_run(rng, k):
         c["plus"] = rng.random() < 0.5 and all(m["mult"] == 1 for m in moves[:2])
     elif drv == "hamiltonian":
         c["moves"] = [{"kind": "hamiltonian", "dt": rng.choice([0.5, 1.0, 3.0]), "n": rng.choice([1, 4, 10])}]
+    else:
+        # force bias: the masses that SCALE the displacements are a public setting of their own (update_masses), independent of atoms.get_masses()
+        r2 = random.Random(c["seed"] ^ 0xFB)
+        if r2.random() < 0.5:
+            c["scale_masses"] = [r2.choice([1.0, 4.0, 16.0, 64.0]) for _ in range(n)]
     return c
 
 
